@@ -785,7 +785,9 @@ impl<'a> Exec<'a> {
             "unlink" | "rmdir" => {
                 let dir = self.resolve(&parent)?;
                 // the kernel looks the victim up first; an API client need not: keep the reference if it exists
-                if let Ok(e) = self.fs.lookup(&self.ctx, dir, cname.as_c_str()) {
+                if op["nolookup"].as_bool().unwrap_or(false) {
+                    // blind removal: the victim was never looked up by this client
+                } else if let Ok(e) = self.fs.lookup(&self.ctx, dir, cname.as_c_str()) {
                     // X04 histories keep this reference only when the operation names it ("as")
                     if self.keep && !op["as"].is_string() {
                         if e.inode != 0 {
@@ -1673,10 +1675,13 @@ impl Gen {
             json!({"op":"link","src":s,"p":newp(self)})
         } else if r < 54 {
             let s = if self.rng.chance(1, 10) { pick_row(self, &dirs) } else { pick_row(self, &nondirs) };
-            json!({"op":"unlink","p":or_rand(self, s)})
+            // an API client need not look the victim up first (the kernel does): one removal in three goes in blind
+            let nl = self.rng.chance(1, 3);
+            json!({"op":"unlink","p":or_rand(self, s),"nolookup":nl})
         } else if r < 66 {
             let s = if self.rng.chance(1, 10) { pick_row(self, &nondirs) } else { pick_row(self, &dirs) };
-            json!({"op":"rmdir","p":or_rand(self, s)})
+            let nl = self.rng.chance(1, 3);
+            json!({"op":"rmdir","p":or_rand(self, s),"nolookup":nl})
         } else if r < 80 {
             let s = pick_row(self, &files);
             let p = or_rand(self, s);
